@@ -79,8 +79,13 @@ def split_region(rng, lo, hi, bf, maxsz, p_extra=0.35):
             split_region(rng, lo2, hi, bf, maxsz, p_extra))
 
 
+UNEVEN = [False]
+
+
 def _segments(rng, total, sizes):
-    """ordered random decomposition of `total` into parts from `sizes` (None if impossible)"""
+    """ordered random decomposition of `total` into parts from `sizes` (None if impossible);
+    with UNEVEN the largest feasible part is preferred (12 -> 6+6 rather than 4+4+4), which
+    puts box edges off the multiples of the smallest extent"""
     sizes = sorted(sizes)
     ok = [False] * (total + 1)
     ok[0] = True
@@ -91,7 +96,7 @@ def _segments(rng, total, sizes):
     parts, t = [], total
     while t > 0:
         ch = [s for s in sizes if t >= s and ok[t - s]]
-        s = rng.choice(ch)
+        s = max(ch) if UNEVEN[0] and rng.random() < 0.8 else rng.choice(ch)
         parts.append(s); t -= s
     rng.shuffle(parts)
     return parts
@@ -131,11 +136,12 @@ SPECIALS = [np.nan, np.inf, -np.inf, 5e-324, -0.0, 2.2250738585072014e-308 / 4,
 def gen_model(seed, ndims=3, nlevels=None, nfields=None, base=None, bf=4, maxsz=None,
               origin=None, aniso=True, names=None, payload="random", nfiles=None,
               shuffle=True, full_refine=False, sizes=None, base_blocks=(2, 4), time=None,
-              maxfiles=4, refine_frac=None, data_seed=None):
+              maxfiles=4, refine_frac=None, data_seed=None, uneven=False, free_regions=False):
     """payload: random | special | affine | tagged | positive | ramp
     sizes: when given, 'segments' tiling with box extents from that list (e.g. [16,24])"""
     rng = random.Random(seed)
     nprng = np.random.default_rng(seed if data_seed is None else data_seed)
+    UNEVEN[0] = bool(uneven)
     m = Model()
     m.seed = seed
     m.ndims = ndims
@@ -179,7 +185,29 @@ def gen_model(seed, ndims=3, nlevels=None, nfields=None, base=None, bf=4, maxsz=
     for lv in range(1, m.nlevels):
         prev = m.boxes[lv - 1]
         fine = []
-        if sizes:
+        if sizes and free_regions:
+            # refined region = a rectangle placed at an arbitrary multiple of the blocking factor
+            # (gcd of the sizes) inside one coarse box (level 1: inside the domain), tiled with
+            # `sizes`: box edges are then NOT multiples of the smallest box extent (what real
+            # AMReX grids with blocking factor 8 and 16/24/32-cell boxes look like)
+            flat = sizes if not isinstance(sizes[0], (list, tuple)) else sizes[0]
+            u = int(np.gcd.reduce(flat))
+            if lv == 1:
+                host_lo, host_hi = [0] * ndims, [2 * g - 1 for g in m.grid_sizes[0]]
+            else:
+                hb = rng.choice(prev)
+                host_lo, host_hi = [2 * v for v in hb.lo], [2 * v + 1 for v in hb.hi]
+            lo, hi = [], []
+            for d in range(ndims):
+                room = host_hi[d] - host_lo[d] + 1
+                feas = [t for t in range(min(flat), room + 1, u) if _segments(rng, t, flat) is not None]
+                e = rng.choice(feas)
+                offs = list(range(0, room - e + 1, u))
+                odd = [o for o in offs if (host_lo[d] + o) % min(flat)] or offs
+                o = rng.choice(odd)
+                lo.append(host_lo[d] + o); hi.append(host_lo[d] + o + e - 1)
+            fine += tile_segments(rng, lo, hi, sizes)
+        elif sizes:
             # refine a random non-empty subset of the coarse boxes, retile each with `sizes`
             k = len(prev) if full_refine else rng.randint(1, max(1, (len(prev) + 1) // 2))
             for b in rng.sample(prev, k):
